@@ -44,7 +44,7 @@ func pinned(r *core.Run) {
 	p0 := makeParams(r, 0)
 	type pw struct {
 		sig, mode, kind, what string
-		fails               func(o *outcome) bool
+		fails                 func(o *outcome) bool
 	}
 	accepted := func(o *outcome) bool { return o.Inconclusive == "" && o.TwinChanged && o.RoChanged && o.RoErr == "" }
 	for k, w := range []pw{
